@@ -183,7 +183,9 @@ def _null_teller(rng, et, v):
     if r < 0.3:
         return Obj([("type", rng.choice([jt, jt, "null", [jt, "null"], rng.choice(gs.TYPES)]))])
     if r < 0.42:
-        return Obj([("const", rng.choice([None, v, gv.mutate_leaf(rng, v)]))])
+        m = gv.mutate_leaf(rng, v)
+        # numbers written into a schema DOCUMENT are read as float64 by Unmarshal: only values that are exactly float64 (section 4.2)
+        return Obj([("const", rng.choice([None, v, m if gv.float64_ok(m) else v]))])
     if r < 0.52:
         return Obj([("enum", rng.sample([None, v, Num("0"), "", False, []], rng.randint(1, 3)))])
     if r < 0.62:
